@@ -27,7 +27,7 @@ RULE = ("Hypothesis draws (partitioning mp/re, first_order_singles, request "
         "Non-trivial: order >= 2, or class >= triples, or a two-particle "
         "operator, or RE, and a non-zero reference.")
 BUDGET = {"quick": 110, "thorough": 1800}
-N_EXAMPLES = {"quick": 20, "thorough": 300}
+N_EXAMPLES = {"quick": 16, "thorough": 300}
 ASSUMPTIONS = ["MP models have f_ov = 0 (the derivation documents a block "
                "diagonal H0); closed-form MP amplitudes need a canonical "
                "(diagonal) Fock matrix"]
@@ -199,7 +199,38 @@ def run_case(case):
     return r
 
 
+# fixed deep cases (one per shard): third-order amplitudes of every class,
+# fourth-order expectation value / energy (first orders at which the
+# E^(m) t^(n-m) bookkeeping and the S(2) S(2) norm term matter)
+DEEP = [
+    {"variant": "mp", "singles": False, "kind": "amplitude", "size": [3, 3],
+     "canonical": True, "mseed": 3, "order": 3, "rank": 3,
+     "names": ["i", "j", "k", "a", "b", "c"]},
+    {"variant": "mp", "singles": False, "kind": "expectation",
+     "size": [2, 2], "canonical": True, "mseed": 4, "order": 4,
+     "n_particles": 1},
+    {"variant": "mp", "singles": False, "kind": "amplitude", "size": [3, 2],
+     "canonical": True, "mseed": 5, "order": 3, "rank": 2,
+     "names": ["j", "i", "b", "a"]},
+    {"variant": "mp", "singles": False, "kind": "amplitude", "size": [3, 2],
+     "canonical": True, "mseed": 6, "order": 3, "rank": 1,
+     "names": ["k", "c"]},
+    {"variant": "mp", "singles": True, "kind": "amplitude", "size": [2, 3],
+     "canonical": True, "mseed": 7, "order": 3, "rank": 1,
+     "names": ["i", "a"]},
+    {"variant": "mp", "singles": False, "kind": "energy", "size": [3, 2],
+     "canonical": False, "mseed": 8, "order": 4},
+    {"variant": "re", "singles": True, "kind": "energy", "size": [2, 2],
+     "canonical": False, "mseed": 9, "order": 3},
+    {"variant": "re", "singles": True, "kind": "amplitude", "size": [3, 3],
+     "canonical": False, "mseed": 10, "order": 2, "rank": 3,
+     "names": ["i", "j", "k", "a", "b", "c"]},
+]
+
+
 def run_shard(col, shard, nshards, seed, tier):
+    if shard < len(DEEP):
+        col.run(DEEP[shard], run_case)
     drive(strategy(tier), run_case, N_EXAMPLES[tier], seed * 1000 + shard,
           col)
 
